@@ -48,7 +48,7 @@ static void crash_handler(int sig, siginfo_t *si, void *uc) {
     // such a pattern was following a pointer read from freed memory.
     bool poison = false;
     if (g_sym.in_text(rip)) for (int r = 0; r < 16 && !poison; r++) { uint64_t v = (uint64_t) u->uc_mcontext.gregs[r]; if (r != REG_RIP && ((v >> 16) == 0xddddddddddddULL || ((v + 0x10000) >> 20) == 0xdddddddddddULL)) poison = true; }
-    if (poison && sig == SIGSEGV && !owner)
+    if (poison && (sig == SIGSEGV || sig == SIGBUS) && !owner)
       snprintf((char *) g_slot->note, NOTE_LEN, "CLASS=alloc_use_after_free SIG=crash_in_%s %s in %s while a register holds the poison of a freed block (pointer read from freed memory) during %s", fn.c_str(), signame(sig), fn.c_str(), g_phase);
     else if (owner && wr)
       snprintf((char *) g_slot->note, NOTE_LEN, "CLASS=code_write_outside_window SIG=%s store to code memory %p outside a mem_protect(WRITE_EXEC)..mem_protect(READ_EXEC) window, in %s during %s", fn.c_str(), si->si_addr, fn.c_str(), g_phase);
